@@ -5,13 +5,16 @@ From V.c01 Require Import C01Codec C01Model.
 Definition treeof (bs : list N) : mbox :=
   match decode bs with Ok (t, _) => t | _ => MUnknown (mkHdr [] 0 8) [] end.
 
-Definition w_mvhd_v2 : list N := enc_hdr n_mvhd 108 ++ [2;0;0;0] ++ zeros 96.
-Lemma mvhd_v2_refuted : exists bs t, decode bs = Ok (t, []) /\ encode_w t = Err /\ encode_sw t = Err.
-Proof. exists w_mvhd_v2, (treeof w_mvhd_v2). vm_compute. repeat split. Qed.
+Definition w_mvhd_v2 : list N :=
+  enc_hdr n_mvhd 108 ++ [2;0;0;0] ++ zeros 16 ++ [0;1;0;0] ++ [1;0] ++ zeros 10 ++ unity_matrix ++ zeros 24 ++ [0;0;0;2].
+(* refuted before repo commit 5633466 (encode_w = Err: overflow in SliceWriter); now a fixed point *)
+Lemma mvhd_v2_fixed : exists t, decode w_mvhd_v2 = Ok (t, []) /\ encode_w t = Ok w_mvhd_v2 /\ encode_sw t = Ok w_mvhd_v2.
+Proof. exists (treeof w_mvhd_v2). vm_compute. repeat split. Qed.
 
-Definition w_tkhd_v2 : list N := enc_hdr n_tkhd 92 ++ [2;0;0;7] ++ zeros 80.
-Lemma tkhd_v2_refuted : exists bs t, decode bs = Ok (t, []) /\ encode_w t = Err /\ encode_sw t = Err.
-Proof. exists w_tkhd_v2, (treeof w_tkhd_v2). vm_compute. repeat split. Qed.
+Definition w_tkhd_v2 : list N :=
+  enc_hdr n_tkhd 92 ++ [2;0;0;7] ++ zeros 20 ++ zeros 8 ++ zeros 6 ++ zeros 2 ++ unity_matrix ++ zeros 8.
+Lemma tkhd_v2_fixed : exists t, decode w_tkhd_v2 = Ok (t, []) /\ encode_w t = Ok w_tkhd_v2 /\ encode_sw t = Ok w_tkhd_v2.
+Proof. exists (treeof w_tkhd_v2). vm_compute. repeat split. Qed.
 
 (* trun, flags 0x000001 (data offset present), sample_count 0, data_offset 0 *)
 Definition w_trun_off0 : list N := enc_hdr n_trun 20 ++ [0;0;0;1] ++ [0;0;0;0] ++ [0;0;0;0].
